@@ -498,16 +498,30 @@ impl ConfigActor {
             if !v.tmp && v.md5.as_str() == md5 {
                 return Ok(ConfigResult::NULL);
             }
-            if v.histories.is_empty() {
-                self.tenant_index.insert_config(param.key.clone());
+            // A temporary value hides the applied content (see applied_value). An entry that
+            // carries the applied content again is no change, as on the nodes without the
+            // temporary value: it gets no history item, only the temporary value is dropped.
+            let applied_again = v.tmp
+                && v.histories
+                    .last()
+                    .map(|last| get_md5(&last.content) == md5)
+                    .unwrap_or(false);
+            if applied_again {
+                v.content = param.value;
+                v.md5 = Arc::new(md5);
+                v.tmp = false;
+            } else {
+                if v.histories.is_empty() {
+                    self.tenant_index.insert_config(param.key.clone());
+                }
+                v.update_value(
+                    param.value,
+                    param.history_id,
+                    param.op_time,
+                    Some(Arc::new(md5)),
+                    param.op_user,
+                );
             }
-            v.update_value(
-                param.value,
-                param.history_id,
-                param.op_time,
-                Some(Arc::new(md5)),
-                param.op_user,
-            );
         } else {
             let mut v = ConfigValue::init(
                 param.value,
